@@ -4,5 +4,6 @@ CONSTANT MaxRows = 2
 CONSTANT QFull = FALSE
 CONSTANT CliReadsFile = FALSE
 CONSTANT CliWritesText = TRUE
+CONSTANT CliOpensOutputFirst = FALSE
 INVARIANT CliEqualsLib
 CHECK_DEADLOCK FALSE
